@@ -9,14 +9,14 @@ def ctr_q(kind, c, v, name, desc, defs, **kw):
     d = {'CIPHER': c, 'VEC': v}; d.update(defs)
     return Q('%s:%s:%s' % (kind, be_name(c, v), name), 'lc.c', desc, defs=d, ll=ll, fsarray=(1300 if v else None), sanitize=True, timeout=kw.pop('timeout', 900), **kw)
 
-SEQS_QUICK = ['IX', 'IKCPX', 'IXX', 'XZKCP', 'IXKCPT', 'IXIKPX', 'IiKkxPX', 'ITCPKPX']
+SEQS_QUICK = ['IX', 'IKCPX', 'IXX', 'XZKCP', 'IXKCPT', 'IXIKPX', 'IiKkxPX', 'ITCPKPX', 'IBX', 'IKPBPX']
 SEQS_MORE = ['IKPIKPX', 'IiXxIiXx', 'IKCPXIKCPX', 'ZX', 'IPX', 'ICX', 'ITX', 'IKxPX', 'iIKkPpXx', 'IKPXPKC', 'IXZX']
 
 def seq_queries(tier):
     qs = []
     for (c, v) in CTR_BACKENDS:
         for s in (SEQS_QUICK if tier == 'quick' else SEQS_QUICK + SEQS_MORE):
-            qs.append(ctr_q('seq', c, v, s, 'operation sequence %s (I init, K set_key, T tweak(ed key), C counter, P process %s bytes, X cleanup, Z zero; lower case = second object) on %s CTR objects (data concrete, justified by C08): '
+            qs.append(ctr_q('seq', c, v, s, 'operation sequence %s (I init, K set_key, B rejected set_key, T tweak(ed key), C counter, P process %s bytes, X cleanup, Z zero; lower case = second object) on %s CTR objects (data concrete, justified by C08): '
                             'calls return 1 exactly while the object is live, nothing leaks, nothing is freed twice, every freed block is zero' % (s, 'B+3', be_name(c, v)),
                             {'OB_SEQ': 1, 'SEQ': '"%s"' % s}))
     return qs
@@ -63,7 +63,8 @@ def err_queries(tier):
 PSEQ_QUICK = ['IX', 'IKEDX', 'IXX', 'XZKE', 'IXKED', 'IXIKEX', 'IiKkxEX']
 PSEQ_MORE = ['IKEIKEX', 'IiXxIiXx', 'ZX', 'IEX', 'IDX', 'IKxEX', 'iIKkEeXx', 'IXZX']
 PERR = {1: 'set_key on a null object', 2: 'null key', 3: 'key length out of range (low / Mantis 17)', 4: 'key length out of range (high / Mantis 15)', 5: 'processing with a null object',
-        6: 'byte count one short of a whole number of blocks', 7: 'byte count 1', 8: 'decrypt of blk+1 bytes / Mantis 9 rounds', 9: 'decrypt with a null object / Mantis 4 rounds'}
+        6: 'byte count one short of a whole number of blocks', 7: 'byte count 1', 8: 'decrypt of blk+1 bytes / Mantis 9 rounds', 9: 'decrypt with a null object / Mantis 4 rounds',
+        10: 'encrypt of 257 bytes (two full batches + 1)', 11: 'decrypt of 128+blk+3 bytes', 12: 'decrypt of 65 bytes'}
 
 def par_q(kind, c, name, desc, defs, **kw):
     d = {'CIPHER': c}; d.update(defs)
